@@ -9,12 +9,26 @@ Wire format of a value (one protocol field): tokens separated by a single space
 Everything here is glue: the model functions called are ser / exclude / verifyPlay / verify / decode.
 -/
 
+/-- `h<hex digits>` / `h-<hex digits>`: an integer too long for a decimal token on the Python side -/
+def hexInt (t : String) : Option Int :=
+  let neg := t.startsWith "-"
+  let ds := (if neg then (t.drop 1).toString else t).toList
+  if ds.isEmpty then none else
+  let r : Option Nat := ds.foldl (fun acc c => match acc with
+    | none => none
+    | some a =>
+      if '0' ≤ c ∧ c ≤ '9' then some (a * 16 + (c.toNat - 48))
+      else if 'a' ≤ c ∧ c ≤ 'f' then some (a * 16 + (c.toNat - 87))
+      else none) (some 0)
+  r.map (fun n => if neg then -(n : Int) else (n : Int))
+
 def scalarTok (t : String) : Option Scalar :=
   if t = "T" then some (.bool true)
   else if t = "F" then some (.bool false)
   else if t = "N" then some .none
   else if t.startsWith "s" then (decStr (t.drop 1).toString).map .str
   else if t.startsWith "i" then (decInt (t.drop 1).toString).map .int
+  else if t.startsWith "h" then (hexInt (t.drop 1).toString).map .int
   else none
 
 mutual
@@ -112,6 +126,22 @@ def handle (fs : List String) : String :=
   | ["ser", v] =>
     match parseVal v with
     | some v => encStr (ser v)
+    | none => "bad-op"
+  | ["serg", v] =>
+    -- the serializer with the int -> str digit limit: `refused` = ValueError
+    match parseVal v with
+    | some v => (match serG v with | some t => "ok\t" ++ encStr t | none => "refused")
+    | none => "bad-op"
+  | ["evg", bad, p] =>
+    -- exclusion + serialisation ; verify_play, both with the digit limit
+    match parsePlay p with
+    | some p =>
+      (match excludeSerG p with
+       | .ok t => "ok\t" ++ encStr t
+       | .error e => errStr e) ++ ";" ++
+      (match verifyPlayG p with
+       | .error e => errStr e
+       | .ok (t, sig) => if drvSigDecodes (decList bad) sig then "ok\t" ++ encStr t else "crash")
     | none => "bad-op"
   | ["rt", v] =>
     -- executable form of `decode_ser`: decoding the serialisation gives back a value with the same text and no rest
